@@ -436,14 +436,15 @@ Definition is_heap_op (op : vecop) : bool := match op with VBottomk | VTopk | VS
 Definition is_logic_op (op : binop) : bool := match op with OpAnd | OpOr | OpUnless => true | _ => false end.
 
 (** all steps of an expression; None = outside the fragment (or a construct build rejects: a bare literal) *)
-Fixpoint eval_steps (o : oracles) (c : caps) (recs : list record) (p : mparams) (e : mexpr) : option (list step) :=
+(** [recsf q qstart qend]: the records the storage delivers for query q's selection and window *)
+Fixpoint eval_steps (o : oracles) (c : caps) (recsf : equery -> Z -> Z -> list record) (p : mparams) (e : mexpr) : option (list step) :=
   let stp := if p_step p =? 0 then 1000000000 else p_step p in
   match e with
   | MRange op q range offset u param g =>
       let instant := (p_start p =? p_end p) && (p_step p =? 0) in
       let qstart := p_start p - offset - range + (if instant then -30000000000 else 0) in
       let qend := p_end p - offset in
-      let stored := filter (fun r => (qstart <=? r_ts r) && (r_ts r <=? qend)) recs in
+      let stored := recsf q qstart qend in
       match eval_log o c q (-1) stored with
       | None => None
       | Some es =>
@@ -455,7 +456,7 @@ Fixpoint eval_steps (o : oracles) (c : caps) (recs : list record) (p : mparams) 
         end
       end
   | MVecAgg op e1 param g =>
-      match eval_steps o c recs p e1 with
+      match eval_steps o c recsf p e1 with
       | None => None
       | Some ss => Some (map (if is_heap_op op then vheap_step vec_grouping op (match op with VSort | VSortDesc => -1 | _ => param end) g else vagg_step vec_grouping op g) ss)
       end
@@ -463,10 +464,10 @@ Fixpoint eval_steps (o : oracles) (c : caps) (recs : list record) (p : mparams) 
   | MLit _ => None
   | MBin op rb l r =>
       match l, r with
-      | MLit v, _ => match eval_steps o c recs p r with Some ss => opt_seq (map (lit_step op rb v true) ss) | None => None end
-      | _, MLit v => match eval_steps o c recs p l with Some ss => opt_seq (map (lit_step op rb v false) ss) | None => None end
+      | MLit v, _ => match eval_steps o c recsf p r with Some ss => opt_seq (map (lit_step op rb v true) ss) | None => None end
+      | _, MLit v => match eval_steps o c recsf p l with Some ss => opt_seq (map (lit_step op rb v false) ss) | None => None end
       | _, _ =>
-          match eval_steps o c recs p l, eval_steps o c recs p r with
+          match eval_steps o c recsf p l, eval_steps o c recsf p r with
           | Some ls, Some rs => if is_logic_op op then Some (map (fun lr => merge_step op (fst lr) (snd lr)) (combine ls rs))
                                 else map2_opt (binop_step op rb) ls rs
           | _, _ => None
@@ -495,8 +496,15 @@ Definition read_steps (instant : bool) (steps : list step) : list series :=
   else
     fold_left (fun ss s => fold_left (fun ss (sm : sample) => series_add ss (visible (snd sm)) (ms_of (st_ts s), fst sm)) (st_samples s) ss) steps [].
 
-Definition eval_metric (o : oracles) (c : caps) (recs : list record) (p : mparams) (e : mexpr) : option (list series) :=
-  match eval_steps o c recs p e with
+(** the mock storage: one record set, delivered in order, restricted to the window *)
+Definition window_recs (recs : list record) (_ : equery) (qstart qend : Z) : list record :=
+  filter (fun r => (qstart <=? r_ts r) && (r_ts r <=? qend)) recs.
+
+Definition eval_metric_on (o : oracles) (c : caps) (recsf : equery -> Z -> Z -> list record) (p : mparams) (e : mexpr) : option (list series) :=
+  match eval_steps o c recsf p e with
   | Some steps => Some (read_steps ((p_start p =? p_end p) && (p_step p =? 0)) steps)
   | None => None
   end.
+
+Definition eval_metric (o : oracles) (c : caps) (recs : list record) (p : mparams) (e : mexpr) : option (list series) :=
+  eval_metric_on o c (window_recs recs) p e.
